@@ -2,10 +2,12 @@ package tbtc
 
 import (
 	"context"
+	"crypto/ecdsa"
 	"fmt"
 	"math/big"
 	"sort"
 	"sync"
+	"sync/atomic"
 	"testing"
 	"time"
 
@@ -43,6 +45,61 @@ type c47Chain struct {
 	claimSubmits []uint64
 	approvals    []uint64 // blocks of the approval attempts of the node under test
 	rejectFirst  int      // the chain refuses this many of them
+
+	// onQuery is called while the named chain query of the submitter is in
+	// flight: the answer has been computed and is on its way back.
+	onQuery     func(name string)
+	onWaitEnter func(count int)
+	lastResult  *DKGChainResult
+}
+
+func (c *c47Chain) query(name string) {
+	if c.onQuery != nil {
+		c.onQuery(name)
+	}
+}
+
+func (c *c47Chain) GetDKGState() (DKGState, error) {
+	st, err := c.localChain.GetDKGState()
+	c.query("GetDKGState")
+	return st, err
+}
+
+func (c *c47Chain) IsDKGResultValid(r *DKGChainResult) (bool, error) {
+	ok, err := c.localChain.IsDKGResultValid(r)
+	c.query("IsDKGResultValid")
+	return ok, err
+}
+
+func (c *c47Chain) AssembleDKGResult(
+	submitterMemberIndex group.MemberIndex,
+	groupPublicKey *ecdsa.PublicKey,
+	operatingMembersIndexes []group.MemberIndex,
+	misbehavedMembersIndexes []group.MemberIndex,
+	signatures map[group.MemberIndex][]byte,
+	groupSelectionResult *GroupSelectionResult,
+) (*DKGChainResult, error) {
+	r, err := c.localChain.AssembleDKGResult(submitterMemberIndex, groupPublicKey, operatingMembersIndexes, misbehavedMembersIndexes, signatures, groupSelectionResult)
+	c.query("AssembleDKGResult")
+	return r, err
+}
+
+func (c *c47Chain) GetWallet(pkh [20]byte) (*WalletChainData, error) {
+	w, err := c.localChain.GetWallet(pkh)
+	c.query("GetWallet")
+	return w, err
+}
+
+func (c *c47Chain) GetInactivityClaimNonce(walletID [32]byte) (*big.Int, error) {
+	n, err := c.localChain.GetInactivityClaimNonce(walletID)
+	c.query("GetInactivityClaimNonce")
+	return n, err
+}
+
+func (c *c47Chain) AssembleInactivityClaim(walletID [32]byte, inactive []group.MemberIndex, signatures map[group.MemberIndex][]byte, heartbeatFailed bool) (*InactivityClaim, error) {
+	r, err := c.localChain.AssembleInactivityClaim(walletID, inactive, signatures, heartbeatFailed)
+	c.query("AssembleInactivityClaim")
+	return r, err
 }
 
 // ApproveDKGResult records every attempt of the node under test (also the
@@ -72,7 +129,10 @@ func (c *c47Chain) liveApprovalSubscriptions() int {
 	return len(c.localChain.dkgResultApprovalHandlers)
 }
 
-func (c *c47Chain) BlockCounter() (chain.BlockCounter, error) { return c.bc, nil }
+func (c *c47Chain) BlockCounter() (chain.BlockCounter, error) {
+	c.query("BlockCounter")
+	return c.bc, nil
+}
 
 func (c *c47Chain) DKGParameters() (*DKGParameters, error) { return c.params, nil }
 
@@ -116,6 +176,11 @@ type c47Waits struct {
 
 	mu    sync.Mutex
 	waits []*c47WaitRec
+
+	// onEnter is called when a routine starts a wait (before the waiter is
+	// registered) with the number of waits started so far
+	onEnter func(count int)
+	entered atomic.Int32
 }
 
 type c47WaitRec struct {
@@ -125,6 +190,10 @@ type c47WaitRec struct {
 }
 
 func (w *c47Waits) fn(ctx context.Context, block uint64) error {
+	count := int(w.entered.Add(1))
+	if w.onEnter != nil {
+		w.onEnter(count)
+	}
 	ch, _ := w.bc.BlockHeightWaiter(block)
 	rec := &c47WaitRec{block: block, ctx: ctx, state: "waiting"}
 	w.mu.Lock()
@@ -473,7 +542,8 @@ func c47StartApproval(t *rapid.T, f *c47Fixture, ch *c47Chain, gp *GroupParamete
 	if err := ch.localChain.SubmitDKGResult(chainResult); err != nil {
 		t.Fatal(err)
 	}
-	waits := &c47Waits{bc: ch.bc}
+	ch.lastResult = chainResult
+	waits := &c47Waits{bc: ch.bc, onEnter: ch.onWaitEnter}
 	de := &dkgExecutor{
 		groupParameters: gp,
 		operatorIDFn:    func() (chain.OperatorID, error) { return f.opID, nil },
@@ -519,20 +589,57 @@ func TestVerif_C47_TbtcSubmitHistory(t *testing.T) {
 		if slot > ref {
 			kinds = append(kinds, "before", "before", "just-before", "just-before")
 		}
+		kinds = append(kinds, "during-query", "during-query")
 		plan := c47SubmitPlan{kind: rapid.SampledFrom(kinds).Draw(t, "competing")}
+		// the chain query of the submitter during which somebody else's
+		// submission lands ("wait" = while it starts waiting for its block)
+		landQuery := ""
 		switch plan.kind {
+		case "during-query":
+			plan.eventBlock = ref
+			if what == "dkg-result" {
+				landQuery = rapid.SampledFrom([]string{"GetDKGState", "AssembleDKGResult", "IsDKGResultValid", "BlockCounter", "wait"}).Draw(t, "landsDuring")
+			} else {
+				landQuery = rapid.SampledFrom([]string{"GetWallet", "GetInactivityClaimNonce", "AssembleInactivityClaim", "BlockCounter", "wait"}).Draw(t, "landsDuring")
+			}
 		case "before":
 			plan.eventBlock = uint64(rapid.IntRange(int(ref), int(slot)-1).Draw(t, "eventBlock"))
 		case "just-before":
 			plan.eventBlock = slot - 1
 		}
 		desc := fmt.Sprintf("%s N=%d member=%d reference=%d slot=%d competing=%s@%d", what, n, index, ref, slot, plan.kind, plan.eventBlock)
+		if landQuery != "" {
+			desc += " lands-during=" + landQuery
+		}
 
 		ch := c47NewChain(f.base, ref)
 		waits := &c47Waits{bc: ch.bc}
 		ctx, cancel := context.WithCancel(context.Background())
 		defer cancel()
 		done := make(chan error, 1)
+		inactivityWallet := [32]byte{9, 9}
+		var landed atomic.Bool
+		land := func(name string) {
+			if name != landQuery || landed.Swap(true) {
+				return
+			}
+			// somebody else's submission is accepted and announced: the chain
+			// state moves on and the upstream cancels the member's context
+			if what == "dkg-result" {
+				ch.dkgMutex.Lock()
+				ch.dkgState = Challenge
+				ch.dkgMutex.Unlock()
+			} else {
+				ch.inactivityNonceMutex.Lock()
+				ch.inactivityNonces[inactivityWallet]++
+				ch.inactivityNonceMutex.Unlock()
+			}
+			cancel()
+		}
+		if landQuery != "" {
+			ch.onQuery = land
+			waits.onEnter = func(int) { land("wait") }
+		}
 		switch what {
 		case "dkg-result":
 			if plan.kind != "superseded-at-start" {
@@ -545,7 +652,7 @@ func TestVerif_C47_TbtcSubmitHistory(t *testing.T) {
 			go func() { done <- sub.SubmitResult(ctx, index, result, c47Sigs(n)) }()
 		default:
 			pub := f.share.PublicKey()
-			walletID := [32]byte{9, 9}
+			walletID := inactivityWallet
 			ch.setWallet(bitcoin.PublicKeyHash(pub), &WalletChainData{EcdsaWalletID: walletID})
 			if plan.kind == "superseded-at-start" {
 				ch.inactivityNonces[walletID] = 1 // somebody's claim already went through
@@ -572,6 +679,13 @@ func TestVerif_C47_TbtcSubmitHistory(t *testing.T) {
 		if !verifkit.Eventually(c47Wait, func() bool { r, _, _ := waits.snapshot(); return len(r) > 0 || len(done) > 0 }) {
 			fmt.Println("VERIF-INCONCLUSIVE: tBTC submitter neither waits nor returns")
 			t.Fatalf("VERIF-INCONCLUSIVE: submitter stuck; %s", desc)
+		}
+		if plan.kind == "during-query" {
+			if !landed.Load() {
+				t.Fatalf("the member never made the chain query %q; %s", landQuery, desc)
+			}
+			// cancelled while it was still preparing: it leaves by itself
+			waitDone("somebody else's submission landing during " + landQuery)
 		}
 		for !finished {
 			select {
@@ -630,7 +744,7 @@ func TestVerif_C47_TbtcSubmitHistory(t *testing.T) {
 				t.Fatalf("member submitted although it learnt at block %d, before its slot %d, that somebody else had submitted; %s", plan.eventBlock, slot, full)
 			}
 		}
-		st.Case(plan.kind == "just-before" || plan.kind == "before", full, "what:"+what, "competing:"+plan.kind, fmt.Sprintf("size:%d", n))
+		st.Case(plan.kind == "just-before" || plan.kind == "before" || plan.kind == "during-query", full, "what:"+what, "competing:"+plan.kind, fmt.Sprintf("size:%d", n))
 	})
 }
 
@@ -684,7 +798,9 @@ func TestVerif_C47_TbtcApprovalHistory(t *testing.T) {
 		if rapid.SampledFrom([]bool{false, false, true}).Draw(t, "firstGoesThrough") {
 			rejected = 0
 		}
-		external := rapid.SampledFrom([]string{"none", "none", "between", "just-before"}).Draw(t, "externalApproval")
+		// "during-wait": somebody else's approval lands while the last of the
+		// operator's routines is starting its wait (all are subscribed then)
+		external := rapid.SampledFrom([]string{"none", "none", "between", "just-before", "during-wait"}).Draw(t, "externalApproval")
 		var externalBlock uint64
 		last := exp[len(exp)-1].b
 		switch external {
@@ -692,6 +808,8 @@ func TestVerif_C47_TbtcApprovalHistory(t *testing.T) {
 			externalBlock = uint64(rapid.IntRange(int(subBlock), int(last)).Draw(t, "externalBlock"))
 		case "just-before":
 			externalBlock = exp[rapid.IntRange(0, len(exp)-1).Draw(t, "externalBeforeSlotOf")].b - 1
+		case "during-wait":
+			externalBlock = subBlock
 		}
 		desc := fmt.Sprintf("N=%d mine=%v submitter=%d submission=%d challenge=%d precedence=%d rejected=%d external=%s@%d",
 			n, mine, submitter, subBlock, challenge, precedence, rejected, external, externalBlock)
@@ -699,9 +817,21 @@ func TestVerif_C47_TbtcApprovalHistory(t *testing.T) {
 		ch := c47NewChain(f.base, subBlock)
 		ch.params = &DKGParameters{SubmissionTimeoutBlocks: 10, ChallengePeriodBlocks: challenge, ApprovePrecedencePeriodBlocks: precedence}
 		ch.rejectFirst = rejected
+		externalDone := false
+		var landErr error
+		if external == "during-wait" {
+			externalDone = true
+			ch.onWaitEnter = func(count int) {
+				if count == k {
+					landErr = ch.localChain.ApproveDKGResult(ch.lastResult)
+				}
+			}
+		}
 		run := c47StartApproval(t, f, ch, gp, submitter, subBlock, mine)
 		run.quiesce(t, ch, k, "scheduling")
-		externalDone := false
+		if landErr != nil {
+			t.Fatalf("harness approval failed: %v; %s", landErr, desc)
+		}
 		for h := subBlock; h <= last+1; h++ {
 			ch.bc.AdvanceTo(h)
 			run.quiesce(t, ch, k, fmt.Sprintf("block %d", h))
